@@ -331,7 +331,18 @@ DropWith(bs) ==
   /\ pend > 0 /\ ~cclosed
   /\ wire' = wire \o bs /\ cclosed' = TRUE /\ pend' = 0
   /\ UNCHANGED <<scen, cvars, copen, inbuf, dvars, ovars, odd>>
-ServerDrop == Drops /\ \E bs \in {<<>>, <<50, 50>>, <<50, 50, 48, DASH, 120, CR, LF>>} : DropWith(bs)
+\* ... or in the middle of the closing reply of a transfer
+DropFinal(bs) ==
+  /\ xfer /\ ~finalSent /\ ~cclosed
+  /\ wire' = wire \o bs /\ finalSent' = TRUE /\ cclosed' = TRUE
+  /\ UNCHANGED <<scen, cvars, copen, inbuf, pend, daddr, dq, dclosed, dsent, dgot, xfer, ovars, odd>>
+\* a reply torn k bytes before its end (1: LF missing, 2: CR LF missing, 3: inside the text)
+Torn(bs, k) == SubSeq(bs, 1, Len(bs) - k)
+ServerDrop ==
+  /\ Drops
+  /\ \/ \E bs \in {<<>>, <<50, 50>>, <<50, 50, 48, DASH, 120, CR, LF>>} : DropWith(bs)
+     \/ \E m \in Menu(cpc, bcmd), k \in 1..3 : DropWith(Torn(ShapeBytes(m[1], m[2], "single"), k))
+     \/ \E m \in FinalMenu, k \in 1..3 : DropFinal(Torn(ShapeBytes(m[1], m[2], "single"), k))
 
 DataSend(n) ==
   /\ xfer /\ ~dclosed /\ cpc = "data" /\ n \in 1..(MaxData - dsent)
